@@ -30,6 +30,12 @@ func (r *Runner) doLifecycle(s *Step, rep *Reply) bool {
 		r.Down = true
 		r.Count("c11_downs")
 		return true
+	case "deaf":
+		// The plugin stays up but the runtime's events do not reach it until the next Synchronize (C05/C09 quantify over all
+		// request sequences with resynchronisations): the runtime-only transitions of "down", without a restart.
+		r.Down, r.Deaf = true, true
+		r.Count("deaf_periods")
+		return true
 	case "up":
 		dir := r.Inst.StateDir
 		if s.Stale && r.SnapDir != "" {
@@ -67,6 +73,10 @@ func (r *Runner) doLifecycle(s *Step, rep *Reply) bool {
 	}
 	if !r.Down {
 		return false
+	}
+	if r.Deaf && s.Op == "sync" {
+		r.Down, r.Deaf = false, false
+		return false // the real Synchronize, on the instance that missed the events
 	}
 	// runtime-only transitions while the plugin is down
 	r.Count("c11_down_" + s.Op)
